@@ -97,6 +97,10 @@ def make_queries(rng, pathlist, vocab, nq, forced=None):
         elif x < 0.2 and p:
             j = rng.randrange(len(p))
             p = p[:j] + p[j + 1:]                          # word dropped
+        elif x < 0.3 and p:
+            j = rng.randrange(len(p))
+            if len(p[j]) > 1:
+                p = p[:j] + [p[j][:rng.randrange(1, len(p[j]))]] + p[j + 1:]   # word cut short
         pre = '' if rng.random() < 0.3 else rng.choice(prefixes)
         q = (p, pre)
         if q not in qs:
@@ -323,6 +327,7 @@ def run(ctx, res):
     unattributed = []
     absorbed = {k: 0 for k in KNOWN}
     witness_seen = {}
+    escapes = []
     first = True
     longest = 0.0
     while first or time.time() - t_start + longest < budget:
@@ -379,11 +384,26 @@ def run(ctx, res):
                     if flags[kf]:
                         cls = kf
                         break
-                if cls is not None:
+                if cls == 'last_word_escape':
+                    # the mechanism has an exact signature: the script answers as if the last word were absent
+                    escapes.append((p, ws, pre, wb, why, replay, got))
+                elif cls is not None:
                     absorbed[cls] += 1
                     res.violations.append(report.Violation('C01: ' + why, replay, cls=CLASS_OF[cls]))
                 else:
                     unattributed.append((p, ws, pre, wb, why, replay))
+        if escapes:
+            lines = model.run([mspec.meaning_request(p.expr, p.probes.outs, mspec.DEFAULT_WB if wb is None else wb, [(ws[:-1], pre)])
+                               for (p, ws, pre, wb, why, replay, got) in escapes])
+            for (p, ws, pre, wb, why, replay, got), line in zip(escapes, lines):
+                spec2 = mspec.parse_meaning(line)[0][0] if not line.startswith('(drivererror') else None
+                if not line.startswith('(drivererror') and not mspec.judge(spec2, got):
+                    absorbed['last_word_escape'] += 1
+                    replay['signature'] = 'bash answers exactly as the specification does for the words without the last one'
+                    res.violations.append(report.Violation('C01: ' + why, replay, cls=CLASS_OF['last_word_escape']))
+                else:
+                    unattributed.append((p, ws, pre, wb, why, replay))
+            escapes = []
     # unattributed disagreements: shrink the first few, report all (finish() prints at most five)
     for n, (p, ws, pre, wb, why, replay) in enumerate(unattributed):
         if n < 2:
